@@ -30,7 +30,9 @@ SPEC = {
                   "(cfg(routinator_verif) hooks between the file operations, optionally after only some bytes of the "
                   "write), for every k. Stream unit: the store API on small values, raw bytes of every file under "
                   "stored/ compared with the model's crash state (time stamps normalised, temporary files up to "
-                  "buffering), readers in-process. Stream e2e: a real rpkigen world (2 TALs, 6 publication points, 2 "
+                  "buffering; a file the model has no name for is an observation that cannot agree), readers "
+                  "in-process, and Store::dump run on every crash state as part of the oracle (oracle-only: dump is "
+                  "not modelled). Stream e2e: a real rpkigen world (2 TALs, 6 publication points, 2 "
                   "versions), kill inside the real Engine run, then fresh processes: the real `vrps --update-after`, a "
                   "run without updates (= what the store holds), the next full run (= the uninterrupted run's data); "
                   "model on stand-in values. Trusted: Coq kernel, harness, kill hooks, C27/C28's tie of the codecs.",
